@@ -242,6 +242,20 @@ func TestVerifC10(t *testing.T) {
 						svc.Dispose()
 					}
 					obs = append(obs, map[string]any{"res": vC10ErrClass(err)})
+				case "health":
+					// every target of one side has just failed / passed a probe (the probe path itself: HealthCheckCompleted)
+					if svc := router.serviceForName(name); svc != nil {
+						lb := svc.active
+						if vStr(op["side"]) == "rollout" {
+							lb = svc.rollout
+						}
+						if lb != nil {
+							for _, tg := range lb.Targets() {
+								tg.HealthCheckCompleted(vBool(op["healthy"]))
+							}
+						}
+					}
+					obs = append(obs, map[string]any{"res": "ok"})
 				case "request":
 					obs = append(obs, map[string]any{"served": vC10Serve(router, vStrList(op["lines"]))})
 				default:
